@@ -223,3 +223,108 @@ def small(_small, *vals):
     if _small:
         for v in vals:
             assume(-SMALL <= v <= SMALL)
+
+
+# ---- ragged arrays --------------------------------------------------------------------------------
+RBIG = 2 ** 60
+
+
+def ragged_descr(D, K, N, atom, numtype):
+    return {'atom': list(atom), 'darrobject': 'RaggedArray', 'darrversion': darrversion(D),
+            'len': K, 'numtype': numtype, 'size': N * symnp._prod(atom)}
+
+
+def put_ragged(D, w, path, lens, numtype='float64', bolabel='little', atom=(),
+               indextype='int64', metadata=None, vsrc=('vorig',)):
+    """A well-formed RaggedArray directory with len(lens) subarrays of (symbolic) lengths."""
+    bounds = []
+    pos = 0
+    for l in lens:
+        bounds.append((pos, pos + l))
+        pos = pos + l
+    N = pos
+    K = len(lens)
+    top = w.mkdirs(path)
+    put_array(D, w, path + '/values', N, numtype, bolabel, atom, src=vsrc)
+    irows = Seq(Seg(('lit', b), 0, 1) for b in bounds)
+    put_array(D, w, path + '/indices', K, indextype, 'little', (2,), rows=irows)
+    j = File()
+    j.text = JsonDoc(ragged_descr(D, K, N, atom, numtype))
+    j.bin = None
+    top.entries['arraydescription.json'] = j
+    r = File()
+    r.text = ReadmeToken(('ragged', K, tuple(atom), numtype))
+    r.bin = None
+    top.entries['README.txt'] = r
+    if metadata:
+        m = File()
+        m.text = JsonDoc(symfs._jcopy(metadata))
+        m.bin = None
+        top.entries['metadata.json'] = m
+    model = [Seq((Seg(vsrc, s, e),)) for (s, e) in bounds]
+    return model, N
+
+
+def literal_rows(rows):
+    """the literal (start, end) pairs of an index array content; DecodeError otherwise."""
+    out = []
+    for s in rows.segs:
+        n = s.hi - s.lo
+        if n == 0:
+            continue
+        if s.src[0] != 'lit' or n != 1:
+            raise DecodeError('index rows are not readable integers')
+        v = s.src[1]
+        if not isinstance(v, tuple) or len(v) != 2:
+            raise DecodeError('index row is not a pair')
+        out.append(v)
+    return out
+
+
+def decode_ragged(w, path):
+    """Independent reader of a ragged array directory (docs/design.rst). Returns
+    (numtype, atom, [(start, end)...], values rows Seq, index numtype)."""
+    d = w.lookup(path)
+    if not isinstance(d, Dir):
+        raise DecodeError('ragged directory missing')
+    js = _jsonfile(d.entries.get('arraydescription.json'), 'ragged arraydescription.json')
+    if not isinstance(js, dict):
+        raise DecodeError('ragged descriptor is not a dictionary')
+    for k in ('len', 'size', 'atom', 'numtype', 'darrversion', 'darrobject'):
+        if k not in js:
+            raise DecodeError(f'ragged descriptor lacks {k}')
+    if js['darrobject'] != 'RaggedArray':
+        raise DecodeError('darrobject is not RaggedArray')
+    if 'README.txt' not in d.entries:
+        raise DecodeError('ragged README.txt missing')
+    vnt, vbo, vshape, vrows, vdt = decode_array(w, path + '/values')
+    int_, ibo, ishape, irows, idt = decode_array(w, path + '/indices')
+    if int_ not in INDEXTYPES and int_ not in ('uint64',):
+        raise DecodeError('indices are not of an integer type')
+    if len(ishape) != 2 or ishape[1] != 2:
+        raise DecodeError('indices shape is not (n, 2)')
+    if rows_have_garbage(irows) or rows_have_garbage(vrows):
+        raise DecodeError('sub-array bytes do not decode under their descriptor')
+    pairs = literal_rows(irows)
+    if len(pairs) != ishape[0]:
+        raise DecodeError('index rows count differs from indices shape')
+    N = vshape[0]
+    prev = 0
+    for (s, e) in pairs:
+        if s != prev:
+            raise DecodeError('index start does not equal previous end (or first start != 0)')
+        if s > e:
+            raise DecodeError('index start > end')
+        prev = e
+    if prev != N:
+        raise DecodeError('last index end != number of value rows')
+    atom = tuple(vshape[1:])
+    if js['len'] != ishape[0]:
+        raise DecodeError('top-level len != number of index rows')
+    if js['size'] != N * symnp._prod(atom):
+        raise DecodeError('top-level size != number of stored values')
+    if list(js['atom']) != list(atom):
+        raise DecodeError('top-level atom != values atom')
+    if js['numtype'] != vnt:
+        raise DecodeError('top-level numtype != values numtype')
+    return vnt, atom, pairs, vrows, int_
